@@ -795,3 +795,91 @@ def dict_ctor(*a, **kw):
             d._sym_setitem(k, v)
         return d
     return dict(*a, **kw)
+
+
+# --------------------------------------------------------------------------------------------------------------------
+# arrays (array.array / read-only function-backed): mutable, symbolic length, content as z3 Array Int -> Int
+
+class SArray:
+    def __init__(self, name, length, arr=None, fn=None, maxval=None):
+        self.name = name
+        self.length = length
+        self.arr = arr if arr is not None else z3.K(z3.IntSort(), z3.IntVal(0))
+        self.fn = fn            # read-only content given by a Python function of the index (contract of the producer)
+        self.maxval = maxval    # largest storable value (typecode); stores are proof obligations
+        self.version = 0
+
+    def _sym_len(self):
+        return self.length
+
+    def _idx(self, i):
+        n = self.length
+        if isinstance(i, (SInt, SBool)) or isinstance(n, (SInt, SBool)):
+            if truth(i < 0):
+                i = i + n
+            if truth(or_(i < 0, i >= n)):
+                raise _pyraise(IndexError('array index out of range'))
+            return i
+        if i < 0:
+            i += n
+        if not 0 <= i < n:
+            raise _pyraise(IndexError('array index out of range'))
+        return i
+
+    def _sym_getitem(self, i):
+        i = self._idx(i)
+        if self.fn is not None:
+            return self.fn(i)
+        e = z3.Select(self.arr, _z(i))
+        if self.maxval is not None:   # a fixed-width array.array can only hold values of its typecode
+            cur().add(z3.And(e >= 0, e <= self.maxval))
+        return _wrap_int(e)
+
+    def __getitem__(self, i):
+        return self._sym_getitem(i)
+
+    def _sym_setitem(self, i, v):
+        if self.fn is not None:
+            raise Unsupported('store into a read-only (contract-backed) array')
+        i = self._idx(i)
+        if self.maxval is not None:
+            cur().prove(f'array_range.{self.name}', and_(0 <= v, v <= self.maxval),
+                        info='value stored in a fixed-width array.array must fit its typecode')
+        self.version += 1
+        self.arr = z3.Store(self.arr, _z(i), _z(v))
+
+    def havoc(self, tag):
+        self.arr = z3.Array(cur().fresh_name(f'{tag}.{self.name}'), z3.IntSort(), z3.IntSort())
+
+
+class SZeroBytes:
+    """b'\\x00' * n  (only what array.array(typecode, <zero bytes>) needs)"""
+
+    def __init__(self, unit, count):
+        self.unit, self.count = unit, count
+
+    def __mul__(self, n):
+        return SZeroBytes(self.unit, self.count * n if isinstance(self.count, int) and self.count == 1 else
+                          (n if self.count == 1 else None))
+
+    __rmul__ = __mul__
+
+
+def zero_bytes_mul(b, n):
+    if isinstance(b, bytes) and set(b) <= {0}:
+        return SZeroBytes(len(b), n)
+    raise Unsupported('bytes multiplication')
+
+
+TYPECODE_SIZE = {'B': 1, 'H': 2, 'I': 4, 'Q': 8}
+
+
+def b_array(typecode, init):
+    if typecode not in TYPECODE_SIZE:
+        raise Unsupported(f'array typecode {typecode!r}')
+    size = TYPECODE_SIZE[typecode]
+    if isinstance(init, SZeroBytes):
+        if init.unit != size:
+            raise _pyraise(ValueError('bytes length not a multiple of item size'))
+        return SArray(f'array_{typecode}', init.count, maxval=2 ** (8 * size) - 1)
+    raise Unsupported('array() initialiser')
